@@ -113,6 +113,7 @@ def classify_branch(model, rep):
 
 
 def task_rotq(ctx):
+    """O1: rotate_with_quaternion returns an orthogonal matrix of determinant +1 whose row 0 is the bond direction, on every branch of its case split and for both dtypes (the antipodal-cone branch is the known finding)."""
     fn = ctx.under_contract(TGT_ROT)
     for dt in (st.float64, st.float32):
         tag = "f64" if dt == st.float64 else "f32"
@@ -154,6 +155,7 @@ def task_rotq(ctx):
 
 
 def task_rotq_jacobian(ctx):
+    """O3: the hand-coded dRdv is the Jacobian of the implemented map and, on the tangent space of the unit sphere, row 0 follows the bond direction."""
     fn = ctx.under_contract(TGT_ROT)
     for dt in (st.float64, st.float32):
         tag = "f64" if dt == st.float64 else "f32"
@@ -210,6 +212,7 @@ def _pairs_setup():
 
 
 def task_w_rotation(ctx):
+    """O2: w_withquaternion = four-index transformation of the local-frame integrals by the s-p representation of the frame (X-X, X-H, H-H), and the core-electron blocks e1b/e2a are -Z times the rotated (mu nu|ss)."""
     from spec import nddo
 
     fn = ctx.under_contract(TGT_W, stubs=[TGT_ROT])
